@@ -8,12 +8,14 @@ silently falls back to an older model).
 
 Accepted subset
 ---------------
-expressions : int / bool constants, names, comparison chains, and/or/not, + - * % //,
+expressions : list comprehensions over one sequence or over `itertools.product` of two,
+              int / bool constants, names, comparison chains, and/or/not, + - * % //,
               unary minus, conditional expressions, tuples, constant subscripts,
               max()/min() over explicit argument lists or a starred list, calls listed
               in `calls`, and anything listed verbatim in `subst` (matched on
               `ast.unparse` text, so the table pins the exact source spelling).
-statements  : return, if/elif/else, local assignment / augmented assignment,
+statements  : `for x in xs:` whose body only (re)binds locals (-> `List.foldl` over the loop-carried ones),
+              return, if/elif/else, local assignment / augmented assignment,
               `x.extend(f(v) for v in xs)`, `with` (body inlined), `raise E(...)`,
               bare annotations, docstrings, `yield` / `yield from ()` (list mode).
 modes       : "bool"  – comparisons become `decide (a < b)`, and/or/not become && || !
@@ -63,6 +65,8 @@ class Spec:
     rename: dict[str, str] = field(default_factory=dict)  # python local -> lean name
     # `if <test>:` whose evaluation itself raises when <lean cond> holds: test text -> (lean cond, exception name)
     raising_tests: dict[str, tuple[str, str]] = field(default_factory=dict)
+    tuple_as_list: bool = False  # Python tuples used as immutable sequences become Lean lists
+    add_is_append: bool = False  # `a + b` on such sequences is `a ++ b`
 
 
 def find_function(tree: ast.Module, qualname: str) -> ast.FunctionDef:
@@ -87,6 +91,7 @@ def find_function(tree: ast.Module, qualname: str) -> ast.FunctionDef:
 class Tr:
     def __init__(self, spec: Spec):
         self.s = spec
+        self.defined: set[str] = set()  # python locals bound so far on the current path (for loop-carried state)
 
     # ---------------------------------------------------------------- expressions
     def e(self, n: ast.AST) -> str:
@@ -109,7 +114,31 @@ class Tr:
         return self.s.rename.get(n.id, n.id)
 
     def e_Tuple(self, n: ast.Tuple) -> str:
+        if self.s.tuple_as_list:
+            return "[" + ", ".join(self.e(x) for x in n.elts) + "]"
         return "(" + ", ".join(self.e(x) for x in n.elts) + ")"
+
+    def e_ListComp(self, n: ast.ListComp) -> str:
+        """`[elt for v in xs]` -> map;  `[elt for a, b in itertools.product(xs, ys)]` -> flatMap / map."""
+        if len(n.generators) != 1 or n.generators[0].ifs or n.generators[0].is_async:
+            raise Untranslatable(f"{self.s.qualname}: comprehension {ast.unparse(n)!r}")
+        g = n.generators[0]
+        if isinstance(g.target, ast.Name):
+            return f"(({self.e(g.iter)}).map (fun {g.target.id} => {self.e(n.elt)}))"
+        if (
+            isinstance(g.target, ast.Tuple)
+            and len(g.target.elts) == 2
+            and all(isinstance(t, ast.Name) for t in g.target.elts)
+            and isinstance(g.iter, ast.Call)
+            and ast.unparse(g.iter.func) == "itertools.product"
+            and len(g.iter.args) == 2
+            and not g.iter.keywords
+        ):
+            a, b = (t.id for t in g.target.elts)
+            xs, ys = (self.e(x) for x in g.iter.args)
+            # itertools.product: the first factor varies slowest
+            return f"(({xs}).flatMap (fun {a} => ({ys}).map (fun {b} => {self.e(n.elt)})))"
+        raise Untranslatable(f"{self.s.qualname}: comprehension {ast.unparse(n)!r}")
 
     def e_List(self, n: ast.List) -> str:
         return "[" + ", ".join(self.e(x) for x in n.elts) + "]"
@@ -137,6 +166,8 @@ class Tr:
                     return f"({v} {a} {b})"
             raise Untranslatable(f"{self.s.qualname}: sql binop {ast.unparse(n)!r}")
         if isinstance(n.op, ast.Add):
+            if self.s.add_is_append:
+                return f"({a} ++ {b})"
             return f"({a} + {b})"
         if isinstance(n.op, ast.Sub):
             return f"({a} - {b})"
@@ -243,14 +274,59 @@ class Tr:
             return all(self.skippable(x) for x in st.body) and all(self.skippable(x) for x in st.orelse)
         return False
 
-    def block(self, stmts: list[ast.stmt], depth: int = 1) -> str:
+    @staticmethod
+    def assigned_names(stmts: list[ast.stmt]) -> list[str]:
+        """Names bound by plain / annotated / augmented assignments anywhere in `stmts`, in first-seen order."""
+        out: list[str] = []
+        for st in stmts:
+            for n in ast.walk(st):
+                t = None
+                if isinstance(n, ast.Assign) and len(n.targets) == 1 and isinstance(n.targets[0], ast.Name):
+                    t = n.targets[0].id
+                elif isinstance(n, (ast.AnnAssign, ast.AugAssign)) and isinstance(n.target, ast.Name):
+                    if not (isinstance(n, ast.AnnAssign) and n.value is None):
+                        t = n.target.id
+                if t is not None and t not in out:
+                    out.append(t)
+        return out
+
+    def for_loop(self, st: ast.For, rest: list[ast.stmt], depth: int, tail: str | None) -> str:
+        """`for x in xs: <assignments>` -> `List.foldl` over the loop-carried variables (those assigned in the
+        body that were already bound before the loop); names first bound inside the body are local to one
+        iteration.  `break` / `continue` / `else:` / `return` inside the loop are not accepted."""
+        ind = "  " * depth
+        if st.orelse or not isinstance(st.target, ast.Name):
+            raise Untranslatable(f"{self.s.qualname}: for-loop shape {ast.unparse(st).splitlines()[0]!r}")
+        for n in ast.walk(st):
+            if isinstance(n, (ast.Break, ast.Continue, ast.Return, ast.Yield, ast.YieldFrom, ast.While)):
+                raise Untranslatable(f"{self.s.qualname}: {type(n).__name__} inside a for-loop")
+        carried = [v for v in self.assigned_names(list(st.body)) if v in self.defined]
+        if not carried:
+            raise Untranslatable(f"{self.s.qualname}: for-loop without loop-carried variable")
+        names = [self.s.rename.get(v, v) for v in carried]
+        state = names[0] if len(names) == 1 else "(" + ", ".join(names) + ")"
+        saved = set(self.defined)
+        self.defined.add(st.target.id)
+        body = self.block(list(st.body), depth + 2, tail=state)
+        self.defined = saved
+        var = self.s.rename.get(st.target.id, st.target.id)
+        return (
+            f"let {state} := ({self.e(st.iter)}).foldl (fun {state} {var} =>\n{ind}    {body}) {state}\n"
+            f"{ind}{self.block(rest, depth, tail=tail)}"
+        )
+
+    def block(self, stmts: list[ast.stmt], depth: int = 1, tail: str | None = None) -> str:
         ind = "  " * depth
         stmts = [s for s in stmts if not self.skippable(s)]
         if not stmts:
+            if tail is not None:
+                return tail
             if self.s.kind == "list":
                 return "[]"
             raise Untranslatable(f"{self.s.qualname}: control reaches end of function without return")
         st, rest = stmts[0], stmts[1:]
+        if isinstance(st, ast.For):
+            return self.for_loop(st, rest, depth, tail)
         if isinstance(st, ast.Return):
             if st.value is None:
                 raise Untranslatable(f"{self.s.qualname}: bare return")
@@ -264,19 +340,22 @@ class Tr:
             name = ast.unparse(exc.func) if isinstance(exc, ast.Call) else ast.unparse(exc)
             return f'(Except.error "{name}")'
         if isinstance(st, ast.With):
-            return self.block(list(st.body) + rest, depth)
+            return self.block(list(st.body) + rest, depth, tail=tail)
         if isinstance(st, ast.If):
             t = ast.unparse(st.test)
             if t in self.s.variants:
                 chosen = st.body if self.s.variants[t] else st.orelse
-                return self.block(list(chosen) + rest, depth)
+                return self.block(list(chosen) + rest, depth, tail=tail)
             if self.s.kind == "list":
                 a = self.block(list(st.body), depth + 1)
                 b = self.block(list(st.orelse), depth + 1)
                 r = self.block(rest, depth)
                 return f"((if {self.e(st.test)} then\n{ind}  {a}\n{ind}else\n{ind}  {b}) ++\n{ind}{r})"
-            a = self.block(list(st.body) + rest, depth + 1)
-            b = self.block(list(st.orelse) + rest, depth + 1)
+            saved = set(self.defined)
+            a = self.block(list(st.body) + rest, depth + 1, tail=tail)
+            self.defined = set(saved)
+            b = self.block(list(st.orelse) + rest, depth + 1, tail=tail)
+            self.defined = saved
             core = f"(if {self.e(st.test)} then\n{ind}  {a}\n{ind}else\n{ind}  {b})"
             if t in self.s.raising_tests:
                 cond, exc = self.s.raising_tests[t]
@@ -286,14 +365,18 @@ class Tr:
             return core
         if isinstance(st, ast.Assign) and len(st.targets) == 1 and isinstance(st.targets[0], ast.Name):
             nm = self.e_Name(st.targets[0])
-            return f"let {nm} := {self.e(st.value)}\n{ind}{self.block(rest, depth)}"
+            val = self.e(st.value)
+            self.defined.add(st.targets[0].id)
+            return f"let {nm} := {val}\n{ind}{self.block(rest, depth, tail=tail)}"
         if isinstance(st, ast.AnnAssign) and isinstance(st.target, ast.Name) and st.value is not None:
             nm = self.e_Name(st.target)
-            return f"let {nm} := {self.e(st.value)}\n{ind}{self.block(rest, depth)}"
+            val = self.e(st.value)
+            self.defined.add(st.target.id)
+            return f"let {nm} := {val}\n{ind}{self.block(rest, depth, tail=tail)}"
         if isinstance(st, ast.AugAssign) and isinstance(st.target, ast.Name):
             nm = self.e_Name(st.target)
             fake = ast.BinOp(left=ast.Name(id=st.target.id), op=st.op, right=st.value)
-            return f"let {nm} := {self.e(fake)}\n{ind}{self.block(rest, depth)}"
+            return f"let {nm} := {self.e(fake)}\n{ind}{self.block(rest, depth, tail=tail)}"
         if isinstance(st, ast.Expr):
             v = st.value
             if isinstance(v, ast.Yield) and self.s.kind == "list":
@@ -324,6 +407,7 @@ class Tr:
 
     def function(self, fn: ast.FunctionDef) -> str:
         binders = " ".join(f"({n} : {t})" for n, t in self.s.params)
+        self.defined = {a.arg for a in fn.args.args} | ({fn.args.vararg.arg} if fn.args.vararg else set())
         body = self.block(list(fn.body))
         return f"def {self.s.lean_name} {binders} : {self.s.ret} :=\n  {body}\n"
 
